@@ -48,8 +48,14 @@ func evmConfigs(quick bool) []evmCfg {
 	for n := 1; n <= 9; n++ {
 		b.Prefill = append(b.Prefill, fmt.Sprintf("R:F:%d:a", n))
 	}
+	// C: pending one short of its limit (account G: 9 consecutive txs), waiting empty: a promotion that
+	// finds a longer consecutive run than there is room must stop at the limit
+	c := evmCfg{Name: "C", BlockSize: 1, NAcct: 4, Nonces: 3, Payloads: low}
+	for n := 8; n >= 0; n-- {
+		c.Prefill = append(c.Prefill, fmt.Sprintf("R:G:%d:a", n))
+	}
 	allC := []string{"C:E", "C:X", "C:A1", "C:A2", "C:B1", "C:A1B1", "C:ALL"}
-	a.Commits, b.Commits = allC, allC
+	a.Commits, b.Commits, c.Commits = allC, allC, []string{"C:E", "C:A1", "C:ALL"}
 	if quick {
 		// shrink payload variants (second payload only for nonces 0 and 1) and the
 		// commit selections before shrinking the depth
@@ -57,7 +63,7 @@ func evmConfigs(quick bool) []evmCfg {
 		a.Commits = []string{"C:E", "C:X", "C:A1", "C:A2", "C:ALL"}
 		b.Commits = a.Commits
 	}
-	return []evmCfg{a, b}
+	return []evmCfg{a, b, c}
 }
 
 type evmPoolOfWorkers struct {
@@ -94,7 +100,7 @@ func main() {
 	os.RemoveAll(run.WorkDir())
 
 	cfgs := evmConfigs(run.Quick())
-	mpCfgs := []mpCfg{{Name: "A", Limits: false, BlockSize: 1, NTx: 4}, {Name: "B", Limits: true, BlockSize: 1, NTx: 4}}
+	mpCfgs := []mpCfg{{Name: "A", Limits: false, BlockSize: 1, NTx: 4, Foreign: true}, {Name: "B", Limits: true, BlockSize: 1, NTx: 4}}
 
 	// one application instance per worker slot, shared by both configurations
 	// (they have the same block_size, i.e. the same application configuration;
@@ -225,8 +231,8 @@ func main() {
 	}
 
 	// ---- ethTxPool ----
-	depths := map[string]int{"A": run.Pick(4, 7), "B": run.Pick(4, 5)}
-	share := map[string]float64{"A": 0.68, "B": 0.93}
+	depths := map[string]int{"A": run.Pick(4, 7), "B": run.Pick(4, 5), "C": run.Pick(3, 4)}
+	share := map[string]float64{"A": 0.60, "B": 0.85, "C": 0.95}
 	for _, c := range cfgs {
 		if only != "" && only != "evm"+c.Name {
 			continue
